@@ -595,3 +595,48 @@ Theorem C09_example_versions :
   | _ => ([], None)
   end = ([OK 0; OK 1], Some (expected None TinyM.master)).
 Proof. exact (conj tiny_uniform tiny_mixed_versions). Qed.
+
+(* ====================================================================== C11, load half: rejected loads that import nothing *)
+(* ---- [U] a second decidable class, between "quiet" and the general residue: [import_free_load] (a boolean computed from
+        the world and the parsed tree: install, then follow the merge — executing the restrictions of the elements that only
+        the model has and the additions of the new file to merged elements — as long as no level that is reached imports an
+        element of the new tree, until the walk of some level reports the conflict).  Then the rollback has nothing to
+        delete: the files and ALL model records (both index maps) are exactly as before the load, and so are parent, content,
+        name, type, attributes and comment of every node that existed (same_but_files).  Only file memberships differ, and
+        exactly so: the membership is what the merge stage made of the old one (FilesIF: "empty -> an explicit set without
+        the new file", "non-empty -> add the new file"), with the new file removed again where the rollback came by
+        (set_remove), or renamed to the dead file id where it did not.  In particular the loss of index entries named in the
+        known finding C11-load-merge-rollback needs an imported element.  The residue example is in this class. *)
+Theorem C11_load_reject_import_free :
+  forall (T : tables) (tab_el tab_at tab_en : nametab) (check_fn : N -> list N -> res bool)
+         (float_parse : list N -> option N) (LATEST name_definition_ref : N)
+         (m : N) (buffer filename : list N) (strict : bool) (w w' : world) (root : Parser.etree) (st : Parser.pstate),
+    Parser.load strict T tab_el tab_at tab_en check_fn float_parse buffer = Val (Parser.Ret root st) ->
+    FreshIn (N.of_nat (List.length (w_files w))) w ->
+    import_free_load T LATEST name_definition_ref m filename root st w = true ->
+    m_load_buffer T tab_el tab_at tab_en check_fn float_parse LATEST name_definition_ref m buffer filename strict w
+      = Val (ER InvalidFileMerge, w') ->
+    let fid := N.of_nat (List.length (w_files w)) in
+    w_next w <= w_next w' /\ w_files w' = w_files w /\ w_models w' = w_models w /\
+    exists d, forall i, i < w_next w ->
+      match w_nodes w i, w_nodes w' i with
+      | Some n, Some n' =>
+        same_but_files n n' /\
+        exists f1, FilesIF fid (n_files n) f1 /\
+                   (n_files n' = rename_files fid d f1 \/ n_files n' = set_remove fid f1)
+      | None, None => True
+      | _, _ => False
+      end.
+Proof. exact load_reject_import_free. Qed.
+
+(* the rollback when no membership is exactly {f}: nothing is deleted; f is removed from the memberships it visits *)
+Theorem C11_rollback_without_deletion :
+  forall (T : tables) (e f : N) (w : world) (r : out unit) (w' : world),
+    ND f w -> (forall n, w_nodes w e = Some n -> n_files n <> []) ->
+    e_remove_from_file T e f w = Val (r, w') -> SE f w w'.
+Proof. exact rollback_strip. Qed.
+
+Theorem C11_load_reject_import_free_example :
+  import_free_load TinyM.tiny TinyM.LATEST TinyM.DEFREF 0 (BS "b") QuietExample.conf_b
+                   (pstate_of TinyM.tiny 2 QuietExample.conf_b) (QuietExample.after QuietExample.conf_a) = true.
+Proof. exact import_free_example. Qed.
